@@ -76,6 +76,14 @@ Proof.
 Qed.
 Print Assumptions C12_witness_bytes_sign_hash.
 
+(* PublicKey::hash is Blake2b-224 (uninterpreted) of exactly the key bytes and is a well-formed Ed25519KeyHash *)
+Theorem C12_pubkey_hash : forall P : prims, law_hash_shape P -> forall pk,
+  pk_hash P pk = blake2b224 P pk /\ hash_from_bytes 28 (pk_hash P pk) = Ok (pk_hash P pk).
+Proof. intros P L pk. exact (pk_hash_is_keyhash P pk L). Qed.
+Print Assumptions C12_pubkey_hash.
+Example C12_hash_shape_satisfiable : law_hash_shape toy.
+Proof. exact toy_hash_shape. Qed.
+
 (* ---- 128-byte form: secret (64) ++ public key (32) ++ chain code (32); only inputs of exactly 128 bytes are read ---- *)
 Theorem C12_xprv128_roundtrip : forall P : prims, law_shapes P -> law_xpub_layout P ->
   (forall k, xprv_valid k ->
